@@ -162,6 +162,8 @@ type features struct {
 	// slowWaw / warLoad / ringOverflow: see the taints below
 	slowWaw, warLoad, ringOverflow bool
 	executed                       int
+	// l3Lines: distinct 128-byte blocks accessed by the reference execution
+	l3Lines int
 
 	// what each known defect family can explain
 	tConflict *taint // a store and another access to one line (KF-W2, W9, W10)
@@ -200,6 +202,7 @@ func featuresOf(c *core.Case) *features {
 		rd    isa.Reg
 	}
 	var accs []acc
+	l3seen := map[int32]bool{}
 	lastWrite := map[isa.Reg]int{}
 	// dep[r]: trace positions of the (at most 64 most recent) loads the value
 	// of register r was computed from, through registers only
@@ -238,6 +241,10 @@ func featuresOf(c *core.Case) *features {
 				f.memBaseWrittenRecently = true
 			}
 			line := st.Addr >> 6
+			if !l3seen[st.Addr>>7] {
+				l3seen[st.Addr>>7] = true
+				f.l3Lines++
+			}
 			for _, a := range accs {
 				if a.line == line && !a.store && in.Op.IsStore() && dependsOn(in, a.pos) {
 					// a store computed from the result of an older load of the
